@@ -208,6 +208,8 @@ func refusalClass(err error) string {
 		return "value-funds"
 	case "out of gas":
 		return "intrinsic-gas"
+	case "recovery failed", "invalid public key":
+		return "signature"
 	}
 	return "other"
 }
